@@ -2,7 +2,7 @@
    Only statements, closed by [exact] (or a few lines from lemmas), pinned by [Check], with
    their assumptions printed.  Model: Model/Static.v; lemmas: Proofs/C19Facts.v. *)
 Require Import PV.Base.Prelude PV.Model.Proto PV.Model.Desc PV.Model.Value PV.Model.Vec PV.Model.Static.
-Require Import PV.Proofs.C05Facts PV.Proofs.C19Facts.
+Require Import PV.Spec.SpecC19 PV.Proofs.C05Facts PV.Proofs.C19Facts PV.Proofs.C19Spec.
 From Coq Require Import Permutation.
 Open Scope N_scope.
 
@@ -143,6 +143,51 @@ Proof. exact (model_c19_delivers c ls ops children answers). Qed.
 Theorem c19_wf_sound d : wf_declb d = true -> exists ls, wf_decl d ls.
 Proof. exact (wf_declb_sound d). Qed.
 
+(* The executable spec (Spec/SpecC19.v, written from the property text and used as the oracle on
+   the implementation's output) accepts the model's own output on every round of the domain:
+   well-formed declaration; vector label names a permutation of the keys, flush calls only where
+   the generated code has them, try_get probes on sub-structs of a static struct (round_allowedb);
+   update paths naming declared values with distinct powers of two, and a final flush for the
+   local / auto-flush forms (sp_applicable).  All forms: static non-local, static local,
+   auto-flush.  [model_obs] is the model's output in the shape of an implementation report
+   (sums, and for histograms the counts of the run with every amount replaced by 1); the
+   correspondence check accepts exactly it (c19_model_obs_matches). *)
+Theorem c19_spec_model c :
+  wf_declb (c_decl c) = true -> round_allowedb c = true -> sp_applicable c = true ->
+  spec_c19 c (model_obs c) = true.
+Proof. exact (spec_accepts_model c). Qed.
+Theorem c19_model_obs_matches c :
+  wf_declb (c_decl c) = true -> round_allowedb c = true -> sp_applicable c = true ->
+  c19_match c (model_obs c) = true.
+Proof. exact (model_obs_matches c). Qed.
+(* the spec reads a path exactly as the model does *)
+Theorem c19_spec_path d ls p : resolve d = Some ls ->
+  sp_path d (dc_labels d) p = option_map (declared_map ls) (denote (has_try (dc_form d)) ls p).
+Proof. exact (sp_path_denote d ls p). Qed.
+
+(* two rounds produced by tools/p_C19.py (seed 1, quick): an auto-flush declaration with an enum
+   whose two variants carry the same string, and a static local declaration with sub-struct and
+   metric flushes, try_get paths and probes; both lie in the domain of c19_spec_model *)
+Definition gen_round_auto : c19case :=
+  (mkCase (mkDecl FAuto [mkE [69;50;95;48] [(mkV [65;98;99] [65;98;99]);(mkV [114;50;100;50] [65;98;99])]] TLocalIntCounter [mkL [65;49] (LInline [(mkV [97] [97])]);mkL [118;101;114;115;105;111;110] (LInline [(mkV [103;101;116] [103;101;116])]);mkL [95;117] (LEnum [69;50;95;48])]) [[95;117];[118;101;114;115;105;111;110];[65;49]] true [OUpd [SField [97];SField [103;101;116];SField [65;98;99]] 1;OUpd [SField [97];SField [103;101;116];SGet [65;98;99]] 2;OUpd [SField [97];SField [103;101;116];SField [114;50;100;50]] 4;OUpd [SField [97];SField [103;101;116];SGet [114;50;100;50]] 8;OFlush []] []).
+Definition gen_round_static : c19case :=
+  (mkCase (mkDecl FStatic [mkE [69;53;95;48] [(mkV [118;50] [65;98;99])];mkE [69;53;95;49] [(mkV [99;111;108;108;101;99;116] [72;84;84;80;47;50]);(mkV [98;97;122] [48]);(mkV [119;105;116;104] [98;97;122]);(mkV [108;111;99;97;108] [98;97;99;107;92;115;108;97;115;104])];mkE [69;53;95;50] [(mkV [112;117;116] [112;117;116]);(mkV [98;97;114] [98;97;114]);(mkV [114;50;100;50] [114;50;100;50]);(mkV [102;111;111] [102;111;111])]] TLocalIntCounter [mkL [95;117] (LInline [(mkV [103;101;116] [252])]);mkL [109;101;116;104;111;100] (LInline [(mkV [83;111;109;101;57] [83;111;109;101;57]);(mkV [112;117;116] [102;111;111]);(mkV [102;108;117;115;104] [95;117])]);mkL [115;116;97;116;117;115] (LInline [(mkV [118;49] [95;117]);(mkV [95;117] [95;117]);(mkV [108;111;99;97;108] [108;111;99;97;108])])]) [[109;101;116;104;111;100];[115;116;97;116;117;115];[95;117]] false [OUpd [SField [103;101;116];SField [83;111;109;101;57];SField [118;49]] 1;OUpd [STry [252];STry [83;111;109;101;57];STry [95;117]] 2;OUpd [SField [103;101;116];STry [83;111;109;101;57];STry [95;117]] 4;OUpd [SField [103;101;116];SField [83;111;109;101;57];SField [95;117]] 8;OUpd [SField [103;101;116];SField [83;111;109;101;57];SField [108;111;99;97;108]] 16;OUpd [STry [252];STry [83;111;109;101;57];STry [108;111;99;97;108]] 32;OUpd [SField [103;101;116];STry [83;111;109;101;57];STry [108;111;99;97;108]] 64;OFlush [SField [103;101;116]];OUpd [SField [103;101;116];SField [112;117;116];SField [118;49]] 128;OUpd [STry [252];STry [102;111;111];STry [95;117]] 256;OUpd [STry [252];STry [102;111;111];SField [118;49]] 512;OFlush [STry [252];STry [102;111;111]];OUpd [SField [103;101;116];SField [112;117;116];SField [95;117]] 1024;OFlush [SField [103;101;116];SField [112;117;116];SField [95;117]];OUpd [STry [252];SField [112;117;116];STry [95;117]] 2048;OUpd [SField [103;101;116];SField [112;117;116];SField [108;111;99;97;108]] 4096;OUpd [STry [252];STry [102;111;111];STry [108;111;99;97;108]] 8192;OUpd [SField [103;101;116];SField [112;117;116];STry [108;111;99;97;108]] 16384;OUpd [SField [103;101;116];SField [102;108;117;115;104];SField [118;49]] 32768;OUpd [STry [252];STry [95;117];STry [95;117]] 65536;OUpd [SField [103;101;116];STry [95;117];SField [118;49]] 131072;OUpd [SField [103;101;116];SField [102;108;117;115;104];SField [95;117]] 262144;OUpd [SField [103;101;116];SField [102;108;117;115;104];SField [108;111;99;97;108]] 524288;OUpd [STry [252];STry [95;117];STry [108;111;99;97;108]] 1048576;OUpd [STry [252];SField [102;108;117;115;104];SField [108;111;99;97;108]] 2097152;OFlush []] [([],[110;101;119;10;108;105;110;101]);([SField [103;101;116]],[112;117;116]);([SField [103;101;116]],[120;34;121]);([],[252])]).
+Definition in_domain (c : c19case) : bool := wf_declb (c_decl c) && round_allowedb c && sp_applicable c.
+Example c19_example_generated :
+  in_domain gen_round_auto = true /\ in_domain gen_round_static = true
+  /\ spec_c19 gen_round_auto (model_obs gen_round_auto) = true
+  /\ spec_c19 gen_round_static (model_obs gen_round_static) = true
+  /\ model_obs gen_round_static <> None.
+Proof.
+  assert (A : in_domain gen_round_auto = true) by (vm_compute; reflexivity).
+  assert (B : in_domain gen_round_static = true) by (vm_compute; reflexivity).
+  split; [exact A|]. split; [exact B|].
+  unfold in_domain in A, B. apply andb_prop in A as [A A3]. apply andb_prop in A as [A1 A2].
+  apply andb_prop in B as [B B3]. apply andb_prop in B as [B1 B2].
+  split; [apply c19_spec_model; assumption|]. split; [apply c19_spec_model; assumption|].
+  vm_compute. discriminate.
+Qed.
+
 (* ---- non-vacuity: a 3-label declaration (label_enum with a renamed value used twice, inline
    values with a renamed value whose string is another value's identifier) ---- *)
 Definition ex_enum : edef := mkE [69] [vshort [97]; mkV [98] [98;101;101]].          (* E { a, b: "bee" } *)
@@ -225,6 +270,16 @@ Check c19_locate : forall d ls names auto off p,
   wf_decl d ls -> layout_inj ls off ->
   locate (setup_with d ls names auto off) p
   = option_map (static_leaf (keys_of ls)) (denote (has_try (dc_form d)) ls p).
+Check c19_spec_model : forall c,
+  wf_declb (c_decl c) = true -> round_allowedb c = true -> sp_applicable c = true ->
+  spec_c19 c (model_obs c) = true.
+Check c19_model_obs_matches : forall c,
+  wf_declb (c_decl c) = true -> round_allowedb c = true -> sp_applicable c = true ->
+  c19_match c (model_obs c) = true.
+Print Assumptions c19_spec_model.
+Print Assumptions c19_model_obs_matches.
+Print Assumptions c19_spec_path.
+Print Assumptions c19_example_generated.
 Print Assumptions c19_path.
 Print Assumptions c19_field_path.
 Print Assumptions c19_get_path.
